@@ -1,8 +1,8 @@
 \* the pinned tree: VolumeUsage.Add keeps the volumes the same pod key contributed before (known finding F-C11-4)
 \* TLC must reject it; the witness history is printed (BEH) and replayed on the real code
 CONSTANTS NodeNames = {"n1"}  ClaimNames = {}  PodKeys = {"p1"}  Pids = {"i1"}  Pools = {"a"}
-          PortNames = {"80", "81"}
-          Defects = {"volUnion"}  MaxMut = 4  MaxDup = 1  MaxLen = 1000  WithTerm = FALSE  WithRestart = FALSE  PodShapes = {"std", "alt"}  MaxPend = 100
+          PortNames = {"80", "81", "82"}
+          Defects = {"volUnion"}  MaxMut = 4  MaxDup = 1  MaxLen = 1000  WithTerm = FALSE  WithRestart = FALSE  PodShapes = {"std", "alt"}  Start = "empty"  MaxFail = 0  MaxPend = 100
 SPECIFICATION Spec
 VIEW view
 INVARIANTS Inv_C11_NoPanic W_C11_nodes W_C11_requests W_C11_daemonRequests W_C11_hostPorts W_C11_volumes W_C11_disruptionCost
